@@ -491,6 +491,102 @@ def generate(repo):
     if srcs != ["serial_index_array = np.array(range(self._num_outcomes)).reshape(self.nums_local_outcomes)", "target = serial_index_array",
                 "for i in md_index:\n    target = target[i]", "return target"]:
         raise Untranslatable(f"{w}: body is not the row-major index table lookup (found {srcs})")
+    # ---- parameter checks of convert_hs / convert_vec: the if/raise chain in source order
+    KIND = {"HS must be square matrix": "notSquare", "dim of HS must be square number": "dimNotSquare",
+            "dim of from_basis must equal dim of to_basis": "dimMismatch", "length of from_basis must equal length of to_basis": "lenMismatch"}
+
+    def checks(tree, fn, atoms, sig, doc):
+        f = find_fn(tree, fn)
+        chain = []
+        for st in f.body:
+            if isinstance(st, ast.If):
+                if not (len(st.body) == 1 and isinstance(st.body[0], ast.Raise) and not st.orelse):
+                    raise Untranslatable(f"{fn}: an `if` that is not `if cond: raise …` before the main logic")
+                exc = st.body[0].exc
+                msg = ast.unparse(exc.args[0]) if isinstance(exc, ast.Call) and ast.unparse(exc.func) == "ValueError" and exc.args else ""
+                kinds = [k for pre, k in KIND.items() if pre in msg]
+                if len(kinds) != 1:
+                    raise Untranslatable(f"{fn}: unknown ValueError `{msg[:60]}`")
+                t = st.test
+                if not (isinstance(t, ast.Compare) and len(t.ops) == 1 and isinstance(t.ops[0], ast.NotEq)):
+                    raise Untranslatable(f"{fn}: test is not `a != b`: `{ast.unparse(t)}`")
+
+                def side(e):
+                    src = ast.unparse(e)
+                    if src in atoms:
+                        return atoms[src]
+                    if isinstance(e, ast.BinOp) and isinstance(e.op, ast.Pow) and isinstance(e.right, ast.Constant) and ast.unparse(e.left) in atoms:
+                        return f"({atoms[ast.unparse(e.left)]}) ^ {e.right.value}"
+                    raise Untranslatable(f"{fn}: unsupported operand `{src}`")
+                chain.append((f"{side(t.left)} ≠ {side(t.comparators[0])}", kinds[0], ast.unparse(t)))
+        body = "".join(f"if {c} then .error .{k}\n  else " for c, k, _ in chain) + ".ok ()"
+        emit(doc + ": " + "; ".join(f"`if {src}: raise`" for _, _, src in chain), sig, body)
+
+    f = find_fn(gate, "convert_hs")
+    dims = [ast.unparse(x.value) for x in ast.walk(f) if isinstance(x, (ast.Assign, ast.AnnAssign)) and ast.unparse(x.targets[0] if isinstance(x, ast.Assign) else x.target) == "dim"]
+    if ast.unparse(assign_to(f, "size", "convert_hs").value) != "from_hs.shape" or dims != ["int(np.sqrt(size[0]))"]:
+        raise Untranslatable("convert_hs: size / dim are not from_hs.shape / int(np.sqrt(size[0]))")
+    checks(gate, "convert_hs", {"size[0]": "rows", "size[1]": "cols", "dim": "Nat.sqrt rows", "from_basis.dim": "fromDim", "to_basis.dim": "toDim",
+                                "len(from_basis)": "fromLen", "len(to_basis)": "toLen"},
+           "convertHsChecksGen (rows cols fromDim fromLen toDim toLen : Nat) : Except Err Unit", "gate.py:convert_hs parameter checks")
+    checks(mbm, "convert_vec", {"from_basis.dim": "fromDim", "to_basis.dim": "toDim", "len(from_basis)": "fromLen", "len(to_basis)": "toLen"},
+           "convertVecChecksGen (fromDim fromLen toDim toLen : Nat) : Except Err Unit", "matrix_basis.py:convert_vec parameter checks")
+
+    # ---- to_kraus_matrices_from_hs: zero filter, sort, scaling; is_cp / is_positive_semidefinite skeleton
+    w = "gate.py:to_kraus_matrices_from_hs"
+    f = find_fn(gate, "to_kraus_matrices_from_hs")
+    lcs = [x for x in ast.walk(f) if isinstance(x, ast.ListComp)]
+    filt = one((x for x in lcs if x.generators[0].ifs), "filtering comprehension", w)
+    cond = ast.unparse(filt.generators[0].ifs[0])
+    if cond != "not np.isclose(eigen_val, 0, atol=Settings.get_atol())" or ast.unparse(filt.elt) != "(eigen_val, eigen_vec)":
+        raise Untranslatable(f"{w}: zero filter is `{cond}`")
+    emit(f"{w} `[… for (eigen_val, eigen_vec) in eigens if {cond}]` (np.isclose(x, 0, atol=a) is |x| <= a)",
+         "krausKeep {d : Nat} (atolSettings : Rat) (e : EigPair d) : Bool", "!closeZero e.val atolSettings")
+    srt = assign_to_all = [x for x in ast.walk(f) if isinstance(x, ast.Assign) and ast.unparse(x.value).startswith("sorted(")]
+    if len(srt) != 1 or ast.unparse(srt[0].value) != "sorted(eigens, key=lambda x: x[0], reverse=True)":
+        raise Untranslatable(f"{w}: sort is `{[ast.unparse(x.value) for x in srt]}`")
+    emit(f"{w} `{ast.unparse(srt[0])}` (stable, largest eigenvalue first)", "krausSort {d : Nat} (l : List (EigPair d)) : List (EigPair d)", "sortDesc l")
+    sc = one((x for x in lcs if ast.unparse(x.generators[0].iter) == "eigens" and not x.generators[0].ifs and "np.sqrt" in ast.unparse(x.elt)), "scaling comprehension", w)
+    if ast.unparse(sc.elt) != "np.sqrt(eigen_val) * eigen_vec.reshape((c_sys.dim, c_sys.dim))":
+        raise Untranslatable(f"{w}: scaling is `{ast.unparse(sc.elt)}`")
+    emit(f"{w} `{ast.unparse(sc.elt)}` (np.sqrt(eigen_val) is the kernel parameter sqrtVal)",
+         "krausScale {d : Nat} (e : EigPair d) : Mat CRat d d", "Mat.smul (CRat.ofRat e.sqrtVal) (unflat e.vec)")
+    pairs_lc = one((x for x in lcs if ast.unparse(x.generators[0].iter) == "range(len(eigen_vals))"), "eigenpair comprehension", w)
+    if ast.unparse(pairs_lc.elt) != "(eigen_vals[index], eigen_vecs[:, index])" or ast.unparse(assign_to(f, "choi", w).value) != "to_choi_from_hs_with_sparsity(c_sys, hs)":
+        raise Untranslatable(f"{w}: eigenpairs are not (eigen_vals[index], eigen_vecs[:, index]) of the sparse Choi matrix")
+    early = [x for x in f.body if isinstance(x, ast.If) and ast.unparse(x.test) == "not is_cp(c_sys, hs, atol)" and ast.unparse(x.body[0]) == "return []"]
+    if len(early) != 1:
+        raise Untranslatable(f"{w}: no `if not is_cp(c_sys, hs, atol): return []`")
+    f = find_fn(gate, "is_cp")
+    ret = one((x for x in ast.walk(f) if isinstance(x, ast.Return)), "return", "gate.py:is_cp")
+    if ast.unparse(ret.value) != "mutil.is_positive_semidefinite(to_choi_from_hs_with_sparsity(c_sys, hs), atol=atol)":
+        raise Untranslatable(f"gate.py:is_cp returns `{ast.unparse(ret.value)}`")
+    f = find_fn(mu, "is_positive_semidefinite")
+    srcs = [ast.unparse(x) for x in f.body if not (isinstance(x, ast.Expr) and isinstance(x.value, ast.Constant))]
+    exp_if = ("if is_hermitian(matrix, atol):\n    eigvals_array = np.linalg.eigvalsh(matrix)\n    close_zero = np.where(np.isclose(eigvals_array, 0, atol=atol, rtol=0.0))\n"
+              "    eigvals_not_close_zero = np.delete(eigvals_array, close_zero)\n    return np.all(eigvals_not_close_zero >= 0)\nelse:\n    return False")
+    if len(srcs) != 2 or srcs[1] != exp_if:
+        raise Untranslatable(f"matrix_util.py:is_positive_semidefinite: body is not the Hermitian test / close-zero deletion / all >= 0 skeleton")
+    emit("gate.py:is_cp = mutil.is_positive_semidefinite(sparse Choi, atol): `if is_hermitian(matrix, atol): … np.all(eigvals_not_close_zero >= 0) else: return False` "
+         "with `close_zero = np.isclose(eigvals, 0, atol=atol, rtol=0.0)` (eigvalsh is the kernel parameter)",
+         "isCpGen {d : Nat} (choi : Mat CRat (d * d) (d * d)) (eigs : List (EigPair d)) (atol : Rat) : Bool",
+         "isHermitian choi atol && eigs.all fun e => closeZero e.val atol || decide (0 ≤ e.val)")
+
+    # ---- convert_var_to_hs / convert_hs_to_var: position of the fixed row
+    f = find_fn(gate, "convert_var_to_hs")
+    v = assign_to(f, "hs", "gate.py:convert_var_to_hs").value
+    if not (isinstance(v, ast.IfExp) and ast.unparse(v.test) == "on_para_eq_constraint" and ast.unparse(v.orelse) == "reshaped" and isinstance(v.body, ast.Call)
+            and ast.unparse(v.body.func) == "np.insert" and [ast.unparse(a) for a in v.body.args[:1]] == ["reshaped"] and ast.unparse(v.body.args[2]) == "np.eye(1, dim ** 2)"
+            and [ast.unparse(k.value) for k in v.body.keywords if k.arg == "axis"] == ["0"]):
+        raise Untranslatable(f"gate.py:convert_var_to_hs: hs is `{ast.unparse(v)}`")
+    emit(f"gate.py:convert_var_to_hs `{ast.unparse(v.body)}`: index of the inserted row `np.eye(1, dim ** 2)` (axis 0)", "varRowIndex : Nat", ast.unparse(v.body.args[1]))
+    f = find_fn(gate, "convert_hs_to_var")
+    v = assign_to(f, "var", "gate.py:convert_hs_to_var").value
+    if not (isinstance(v, ast.IfExp) and ast.unparse(v.test) == "on_para_eq_constraint" and ast.unparse(v.orelse) == "hs.flatten()"
+            and ast.unparse(v.body).startswith("np.delete(hs, ") and ast.unparse(v.body).endswith(", axis=0).flatten()")):
+        raise Untranslatable(f"gate.py:convert_hs_to_var: var is `{ast.unparse(v)}`")
+    emit(f"gate.py:convert_hs_to_var `{ast.unparse(v.body)}`: index of the deleted row (axis 0)", "varRowDeleted : Nat", ast.unparse(v.body.func.value.args[1]))
+
     out.append("-- povm.py:Povm._md_index2serial_index matched the row-major index-table skeleton (generator-side guard: a different body makes\n"
                "-- the generator fail; the model's `mdSerial` is tied to it by the correspondence on all multi-indices, not by a theorem)\n")
     out.append("end QGen.C02")
